@@ -341,7 +341,7 @@ func c03InProcess(c *Case) {
 		mark("fault", cut)
 	}
 	// single-byte corruptions: every deletion, sampled substitutions / insertions (structural bytes favoured)
-	structural := []byte("[]{},:\"] }x0-\\ ")
+	structural := []byte("[]{},:\"] }x0-\\ \x1e\x00\x0c\x1f\x7f\x0b\x85\xa0\x1c\x1d")
 	for i := 0; i < len(data); i++ {
 		del := append(append([]byte{}, data[:i]...), data[i+1:]...)
 		if _, _, ok := c03RunOne(c, del, chunkPlan(rng, len(del), 3+rng.IntN(2), io.EOF), false, fmt.Sprintf("byte %d deleted", i)); !ok {
@@ -376,6 +376,36 @@ func c03Fixed(c *Case) {
 			c.Count("fixed_streams")
 			if _, _, ok := c03RunOne(c, []byte(s), chunkPlan(rng, len(s), k, io.EOF), false, fmt.Sprintf("fixed stream %q", s)); !ok {
 				break
+			}
+		}
+	}
+}
+
+// the outcome of a damaged stream does not depend on the shape of the program: whatever rules it has (or none), the
+// input is read to its end and the damage is reported
+func c03Shapes(c *Case) {
+	progs := []string{"", "BEGIN { print 'b' }", "END { print 'e' }", "BEGIN { print 'b' } END { print 'e' }", "BEGINFILE { print 'bf' }", "ENDFILE { print 'ef' }", "{ }", "0 { print 'never' }",
+		"function f() { return 1 }", "BEGIN { x = 1 }", "BEGIN { print 'b' } BEGIN { print 'b2' }", "BEGIN { exit }", "1", "{ print }"}
+	streams := []struct {
+		data string
+		bad  bool
+	}{{"[1] [2", true}, {"{\"a\": ", true}, {"[1] ] [2]", true}, {"1 x 2", true}, {"[1]\x1e[2]", true}, {"{\"k\":\"a\x1eb\"}", true}, {"7\x1e8", true}, {"nul", true}, {"[1,]", true}, {"\"abc", true},
+		{"[1] [2]", false}, {"", false}, {" \n ", false}, {"{\"a\": [1, {\"b\": null}]} 3 \"s\"", false}}
+	for _, p := range progs {
+		for _, st := range streams {
+			if p == "BEGIN { exit }" {
+				continue // exit in BEGIN ends the run before any input is wanted
+			}
+			lib := RunLib(p, []InFile{{Name: "stream.json", Data: []byte(st.data)}}, nil, RunOpts{Budget: 100000})
+			c.NonTrivial("shape:" + p + "|" + st.data)
+			c.Count("program_shapes_x_streams")
+			switch {
+			case st.bad && lib.Class != "json":
+				c.Violation(fmt.Sprintf("program %q on the damaged stream %q ended as %s (%s): the damage is not reported as a JSON input error", p, st.data, lib.Class, lib.Msg), nil, map[string]any{"program": p, "stream": st.data})
+			case !st.bad && lib.Class != "ok":
+				c.Violation(fmt.Sprintf("program %q on the clean stream %q ended as %s (%s)", p, st.data, lib.Class, lib.Msg), nil, map[string]any{"program": p, "stream": st.data})
+			default:
+				c.Held()
 			}
 		}
 	}
@@ -770,6 +800,7 @@ func c03Run(c *Case) {
 		c03CliFaults(c)
 	case c.Idx == 2:
 		c03Big(c)
+		c03Shapes(c)
 	case c.Idx < 3+ncli:
 		c03Cli(c)
 	default:
@@ -780,7 +811,7 @@ func c03Run(c *Case) {
 func init() {
 	register(&Prop{
 		ID: "C03", Level: "fault_enumeration",
-		Rule:          "fault enumeration per generated value stream (1-6 values: arrays, objects, scalars, separators none/space/newline/CRLF/tab): 12 chunk plans on the intact stream (1 byte per read, 2, 7, whole, random partitions with (0,nil) reads, final (n,EOF) or (0,EOF)) which must all agree; EVERY truncation point; a reader error injected at EVERY offset twice, as (0,err) and as (n>0,err); EVERY single-byte deletion plus sampled substitutions and insertions of structural bytes; 29 fixed streams from the property (stray closers, garbage between values, touching values, BOM, form feed). Oracle: a hand-written stream splitter gives the complete values and whether the rest is clean/truncated/damaged; expected output = reference model on those values; outcome must be ok for a clean stream and a JSON error naming the file otherwise; the reader/writer ledger checks at every Read call that every value handed out together with one further byte already has its output written. Streams with one value of 4 KiB - 1 MiB (string, array, object; first / in the middle / last) among small ones under 5 read plans (all at once, one value per read, 64 KiB / 4 KiB / random blocks). Binary level: the stream fed chunk by chunk on stdin or (every third case) through a named pipe given as a file argument; after each chunk the process is observed waiting for input via /proc (blocked in read(0), or for the named pipe: all threads asleep and no CPU time used between two observations) and the output due so far must be on the pipe; directory and /proc/self/mem as input; EIO injected with strace on read 1, 2, 3 of a file. Non-trivial = stream with >= 2 values; distinct by (stream, damage kind, position).",
+		Rule:          "fault enumeration per generated value stream (1-6 values: arrays, objects, scalars, separators none/space/newline/CRLF/tab): 12 chunk plans on the intact stream (1 byte per read, 2, 7, whole, random partitions with (0,nil) reads, final (n,EOF) or (0,EOF)) which must all agree; EVERY truncation point; a reader error injected at EVERY offset twice, as (0,err) and as (n>0,err); EVERY single-byte deletion plus sampled substitutions and insertions of structural and control bytes (0x00, 0x0B, 0x0C, 0x1C-0x1F, 0x7F, 0x85, 0xA0); 29 fixed streams from the property (stray closers, garbage between values, touching values, BOM, form feed). Oracle: a hand-written stream splitter gives the complete values and whether the rest is clean/truncated/damaged; expected output = reference model on those values; outcome must be ok for a clean stream and a JSON error naming the file otherwise; the reader/writer ledger checks at every Read call that every value handed out together with one further byte already has its output written. Streams with one value of 4 KiB - 1 MiB (string, array, object; first / in the middle / last) among small ones under 5 read plans (all at once, one value per read, 64 KiB / 4 KiB / random blocks). 14 program shapes (no rules, BEGIN only, END only, function only, body-less pattern, ...) x 14 streams: a damaged stream is a JSON error whatever the program looks like. Binary level: the stream fed chunk by chunk on stdin or (every third case) through a named pipe given as a file argument; after each chunk the process is observed waiting for input via /proc (blocked in read(0), or for the named pipe: all threads asleep and no CPU time used between two observations) and the output due so far must be on the pipe; directory and /proc/self/mem as input; EIO injected with strace on read 1, 2, 3 of a file. Non-trivial = stream with >= 2 values; distinct by (stream, damage kind, position).",
 		NumCases:      c03Cases,
 		Run:           c03Run,
 		MinConclusive: func(tier string) int { return 50000 },
